@@ -81,6 +81,9 @@ func cmdRun(args []string) int {
 		b, _ := json.Marshal(v.Inputs)
 		fmt.Printf("VIOLATION class=%s inputs=%s\n  at %s\n", v.Class, b, v.Msg)
 		if *verbose {
+			for _, s := range v.Obs {
+				fmt.Println("    obs:", s)
+			}
 			for _, s := range v.Sched {
 				fmt.Println("    ", s)
 			}
